@@ -9,13 +9,17 @@ package main
 // process owns no more sockets than before the router was started (/proc/self/fd, with retries).
 //
 // case : it=<items as in `startup`, all +> srv=<listener kinds> up=<upstream kind> k=<its close protocol>
-//        warm=<0|1> n=<queries in flight at close>
-// out  : res=<ok|err|panic|hang> warm=<ok|fail|hang|-> cl=<n|hang|panic> infl=<fail|ok|hang> after=<fail|ok|hang>
+//        warm=<0|1> n=<queries in flight at close> cli=<silent|half>: every stream listener has one client that is
+//        connected and silent / has sent half a request when the router is closed
+// out  : res=<ok|err|panic|hang> warm=<ok|fail|hang|-> cl=<n|hang|panic|slow (a Close took more than 2 s)> infl=<fail|ok|hang> after=<fail|ok|hang>
 //        busy=<ids|-> leak=<n>
 
 import (
+	"context"
+	"crypto/tls"
 	"fmt"
 	"math/rand"
+	"net"
 	"net/netip"
 	"strconv"
 	"strings"
@@ -24,7 +28,72 @@ import (
 
 	"github.com/IrineSistiana/mosproxy/app/router"
 	"github.com/IrineSistiana/mosproxy/internal/dnsmsg"
+	"github.com/quic-go/quic-go"
 )
+
+// Close must not wait for clients: a Close that returns, but only after this long, is reported as `slow`.
+const c18ClosePrompt = 2 * time.Second
+
+// c18client is a client of one listener that is connected and silent, or has sent half a request, when
+// the router is closed. sawClose: the proxy closed its side (informational: the tcp and tls listeners do
+// not close accepted connections on Close; that is outside the property text).
+type c18client struct {
+	closeFn  func()
+	sawClose chan struct{}
+}
+
+func c18Attach(kind string, port int, half bool) *c18client {
+	addr := "127.0.0.1:" + strconv.Itoa(port)
+	cl := &c18client{sawClose: make(chan struct{})}
+	if kind == "quic" {
+		ctx, cancel := context.WithTimeout(context.Background(), 3*time.Second)
+		defer cancel()
+		qc, err := quic.DialAddr(ctx, addr, &tls.Config{InsecureSkipVerify: true, NextProtos: []string{"doq"}}, &quic.Config{})
+		if err != nil {
+			return nil
+		}
+		if half {
+			if st, err := qc.OpenStream(); err == nil {
+				st.Write([]byte{0})
+			}
+		}
+		go func() { <-qc.Context().Done(); close(cl.sawClose) }()
+		cl.closeFn = func() { qc.CloseWithError(0, "") }
+		return cl
+	}
+	c, err := net.DialTimeout("tcp", addr, 3*time.Second)
+	if err != nil {
+		return nil
+	}
+	var cc net.Conn = c
+	if half {
+		if kind == "tls" || kind == "https" {
+			tc := tls.Client(c, &tls.Config{InsecureSkipVerify: true, NextProtos: []string{"http/1.1"}})
+			c.SetDeadline(time.Now().Add(3 * time.Second))
+			if tc.Handshake() == nil {
+				cc = tc
+			}
+			c.SetDeadline(time.Time{})
+		}
+		switch kind {
+		case "tcp", "gnet", "tls":
+			cc.Write([]byte{0, 40, 1, 2, 3}) // 5 bytes of a 42 byte frame
+		default:
+			cc.Write([]byte("POST /dns-query HTTP/1.1\r\nHost: x\r\nContent-Type: application/dns-message\r\nContent-Length: 100\r\n\r\nabc"))
+		}
+	}
+	go func() {
+		b := make([]byte, 256)
+		for {
+			if _, err := cc.Read(b); err != nil {
+				close(cl.sawClose)
+				return
+			}
+		}
+	}()
+	cl.closeFn = func() { cc.Close() }
+	return cl
+}
 
 func init() {
 	register("shutdown", &component{gen: c18ShutdownGen, run: c18ShutdownRun, setup: c18ServersSetup})
@@ -81,6 +150,7 @@ func c18ShutdownOnce(c string) string {
 	}()
 
 	base := c18Baseline()
+	gbase := c18OtterGoroutines()
 	var b *c18built
 	var r *router.VerifRouter
 	var err error
@@ -145,13 +215,57 @@ func c18ShutdownOnce(c string) string {
 		nonce := nbase + i
 		c18Wait(func() bool { return finished(cl) || s.seen(nonce) })
 	}
+	// clients that are connected and silent / have sent half a request when the router is closed
+	var clients []*c18client
+	if mode := m["cli"]; mode == "silent" || mode == "half" {
+		si := 0
+		kinds := c18List(m["srv"])
+		for id, it := range items {
+			if it.kind != 's' {
+				continue
+			}
+			kind := "udp"
+			if si < len(kinds) {
+				kind = kinds[si]
+			}
+			si++
+			if kind == "udp" || kind == "udp2" {
+				continue
+			}
+			if cl := c18Attach(kind, b.ports[id], mode == "half"); cl != nil {
+				clients = append(clients, cl)
+			}
+		}
+		time.Sleep(50 * time.Millisecond) // let the listeners see them
+	}
 	closes, clRes := 0, ""
 	for i := 0; i < 2; i++ {
-		if x := c18Call(c18CallMax, func() { r.Close() }); x == "ok" {
+		t0 := time.Now()
+		if x := c18Call(c18CallMax, func() { r.Close() }); x != "ok" {
+			if clRes == "" {
+				clRes = x
+			}
+		} else if time.Since(t0) > c18ClosePrompt {
+			if clRes == "" {
+				clRes = "slow"
+			}
+			c18Timeouts.Add(1)
+		} else {
 			closes++
-		} else if clRes == "" {
-			clRes = x
 		}
+	}
+	cconns := 0
+	grace := time.After(300 * time.Millisecond)
+	for _, cl := range clients {
+		select {
+		case <-cl.sawClose:
+		case <-grace:
+			grace = time.After(0)
+			cconns++
+		}
+	}
+	for _, cl := range clients {
+		cl.closeFn()
 	}
 	inflRes := "fail"
 	for _, cl := range infl {
@@ -181,15 +295,35 @@ func c18ShutdownOnce(c string) string {
 		}
 	}
 	leak := c18Leak(base)
+	g := 0
+	c18Wait(func() bool { g = c18OtterGoroutines() - gbase; return g <= 0 }) // the memory cache owns goroutines
+	if g > 0 {
+		leak += (g + 1) / 2
+	}
 	cls := strconv.Itoa(closes)
 	if clRes != "" {
 		cls = clRes
 	}
-	return fmt.Sprintf("res=ok warm=%s cl=%s infl=%s after=%s busy=%s leak=%d", warm, cls, inflRes, after, c18Ids(busy), leak)
+	out := fmt.Sprintf("res=ok warm=%s cl=%s infl=%s after=%s busy=%s leak=%d", warm, cls, inflRes, after, c18Ids(busy), leak)
+	if len(clients) > 0 {
+		out += fmt.Sprintf(" ## clients=%d not-closed-by-the-proxy=%d", len(clients), cconns)
+	}
+	return out
 }
 
 func c18ShutdownGen(r *rand.Rand, thorough bool, emit func(c, cat string)) {
 	ups := []string{"udp", "tcp", "tls", "tcp+pipeline", "tls+pipeline", "http", "https", "h3", "quic"}
+	// every listener kind with a silent client and with a half-sent request when the router is closed
+	for i, mode := range []string{"silent", "half"} {
+		srv := "tcp,tls,http,fasthttp,https,quic"
+		it := "u+0,r+0,c+0,s+1,s+1,s+1,s+1,s+1,s+1"
+		if thorough {
+			srv += ",gnet"
+			it += ",s+1"
+		}
+		emit(fmt.Sprintf("it=%s srv=%s up=udp k=pipe warm=%d n=%d cli=%s", it, srv, i, 1+i, mode), "clients-"+mode)
+		emit(fmt.Sprintf("it=u+0,r+0,c+0,s+1 srv=fasthttp up=tcp k=reuse warm=0 n=0 cli=%s", mode), "clients-"+mode)
+	}
 	n := 12
 	if thorough {
 		n = 150
@@ -202,8 +336,9 @@ func c18ShutdownGen(r *rand.Rand, thorough bool, emit func(c, cat string)) {
 		}
 		items = append(items, "u+"+b2s(c18UpSock(up)), "r+0")
 		if r.Intn(2) == 0 {
-			items = append(items, "c+0")
+			items = append(items, "M+1")
 		}
+		items = append(items, "c+0")
 		for k := 1 + r.Intn(4); k > 0; k-- {
 			kinds := c18SrvKinds
 			if !thorough || r.Intn(4) > 0 {
@@ -214,6 +349,9 @@ func c18ShutdownGen(r *rand.Rand, thorough bool, emit func(c, cat string)) {
 		}
 		c := fmt.Sprintf("it=%s srv=%s up=%s k=%s warm=%d n=%d", strings.Join(items, ","), strings.Join(srv, ","),
 			up, c18UpModelKind[up], r.Intn(2), r.Intn(4))
+		if x := r.Intn(3); x > 0 {
+			c += " cli=" + []string{"", "silent", "half"}[x]
+		}
 		emit(c, "up-"+up)
 	}
 }
